@@ -44,37 +44,26 @@ Definition find_mark (m : string) (t : utree) : option (list nat) :=
   | None => None
   end.
 
-(** Apply of the k-th proposal, the four nodes marked; [None]: there is no proposal *)
-Definition hold_apply (k : nat) (t : utree) : res (option utree) :=
+(** the k-th proposal COLLECTED (kept, not applied): the four nodes marked in the tree as it
+    is; [None]: there is no proposal.  n1 is at [r_path], n2 in its slot [r_k], the child of n2
+    that will move in n2's slot [n22_index], n1_2 in n1's slot [n12_index] or, when that slot is
+    n1's parent slot ([r_flip]), the node above n1 *)
+Definition hold_collect (k : nat) (t : utree) : res (option utree) :=
   match nni_pick k t with
   | None => Ok None
   | Some r =>
-    match NNI.apply r t with
-    | None => Err err_nni
-    | Some t1 =>
-      let p := NNI.r_path r in
-      let marked :=
-          if NNI.r_flip r then
-            (* the node at [p] is n2, n1 hangs in its slot r_j, the moved child of n2 is now in
-               n1's slot n12_index; n1_2 is n2's parent *)
-            let p1 := (p ++ [NNI.r_j r])%list in
-            match mark_at p mk_n2 t1 with
-            | Some a => match mark_at p1 mk_n1 a with
-                        | Some b => match mark_at (p1 ++ [NNI.n12_index r])%list mk_m2 b with
-                                    | Some c => mark_at (removelast p) mk_m1 c
-                                    | None => None end
-                        | None => None end
-            | None => None end
-          else
-            let p2 := (p ++ [NNI.r_k r])%list in
-            match mark_at p mk_n1 t1 with
-            | Some a => match mark_at p2 mk_n2 a with
-                        | Some b => match mark_at (p ++ [NNI.n12_index r])%list mk_m2 b with
-                                    | Some c => mark_at (p2 ++ [NNI.n22_index r])%list mk_m1 c
-                                    | None => None end
-                        | None => None end
-            | None => None end in
-      match marked with Some tm => Ok (Some tm) | None => Err "model: cannot mark" end
+    let p := NNI.r_path r in
+    let p2 := (p ++ [NNI.r_k r])%list in
+    let pm1 := if NNI.r_flip r then removelast p else (p ++ [NNI.n12_index r])%list in
+    match mark_at p mk_n1 t with
+    | Some a => match mark_at p2 mk_n2 a with
+                | Some b => match mark_at (p2 ++ [NNI.n22_index r])%list mk_m2 b with
+                            | Some c => match mark_at pm1 mk_m1 c with
+                                        | Some d => Ok (Some d)
+                                        | None => Err "model: cannot mark" end
+                            | None => Err "model: cannot mark" end
+                | None => Err "model: cannot mark" end
+    | None => Err "model: cannot mark"
     end
   end.
 
@@ -85,44 +74,51 @@ Fixpoint up_idx (sl : list slot) : nat :=
   | _ :: r => S (up_idx r)
   end.
 
-(** nni.Undo on the marked tree, wherever the root is now.  Go looks the four positions up by
-    pointer, exchanges n1_2 (next to n2) and the moved child m2 (next to n1) in place, each branch
-    keeping its direction, and inverts the central branch iff n1_2 is the parent of n2.
-      n1 above n2, m2 and n1_2 children           : plain exchange seen from n1;
-      n2 above n1, n1_2 the parent of n2          : exchange with inversion ([swap_local] at n2);
-      n2 above n1, n1_2 a child of n2             : plain exchange seen from n2;
-      n1 above n2 and m2 the PARENT of n1 (the root is in the clade that Apply moved): exchange
-        with inversion seen from n1 -- n2 takes n1's place below m2 (since the fix "NNI Undo left the
-        central branch wrongly oriented when the tree had been re-rooted into the clade moved by
-        Apply": the branch is inverted when e2.Right() == n2 || e1.Right() == n1).
-    [Ok None] (a step left to the oracle alone) is no longer produced. *)
-Definition hold_undo (tm : utree) : res (option utree) :=
+(** the exchange both Apply and Undo perform, wherever the root is now: X and Y are the two ends
+    of the central branch, mX a neighbour of X and mY a neighbour of Y; mX and mY are exchanged in
+    place, each branch keeping its direction, and the central branch is inverted iff the root is
+    behind mX or behind mY (tree/rearrange.go since the fixes "NNI Undo / NNI Apply left the
+    central branch wrongly oriented when the tree had been re-rooted into the clade ..."):
+      X above Y (mY is then a child of Y): [swap_local] at X, with mX's slot or X's parent slot;
+      Y above X (mX is then a child of X): [swap_local] at Y, with mY's slot or Y's parent slot.
+    The markers stay. *)
+Definition exchange (tm : utree) (pX pY pmX pmY : list nat) : res utree :=
+  match node_at tm pX, node_at tm pY with
+  | Some X, Some Y =>
+    let child_of (p q : list nat) := Nat.eqb (length p) (S (length q)) in
+    let r :=
+        if child_of pY pX then
+          let ia := if child_of pmX pX then last pmX 0 else up_idx (uslots X) in
+          NNI.at_path (NNI.swap_local (last pY 0) (up_idx (uslots Y)) ia (last pmY 0)) pX tm
+        else if child_of pX pY then
+          let ia := if child_of pmY pY then last pmY 0 else up_idx (uslots Y) in
+          NNI.at_path (NNI.swap_local (last pX 0) (up_idx (uslots X)) ia (last pmX 0)) pY tm
+        else None in
+    match r with Some t' => Ok t' | None => Err err_nni end
+  | _, _ => Err err_nni
+  end.
+
+Definition with_marks (tm : utree) (f : list nat -> list nat -> list nat -> list nat -> res utree) : res utree :=
   match find_mark mk_n1 tm, find_mark mk_n2 tm, find_mark mk_m1 tm, find_mark mk_m2 tm with
-  | Some p1, Some p2, Some pm1, Some pm2 =>
-    match node_at tm p1, node_at tm p2 with
-    | Some n1, Some n2 =>
-      let child_of (p q : list nat) := Nat.eqb (length p) (S (length q)) in
-      if child_of p2 p1 then
-        (* n1 above n2; n1_2 is then a child of n2 *)
-        if child_of pm2 p1 then
-          match NNI.at_path (NNI.swap_local (last p2 0) (up_idx (uslots n2)) (last pm2 0) (last pm1 0)) p1 tm with
-          | Some t' => Ok (Some (strip_marks t'))
-          | None => Err err_nni
-          end
-        else
-          match NNI.at_path (NNI.swap_local (last p2 0) (up_idx (uslots n2)) (up_idx (uslots n1)) (last pm1 0)) p1 tm with
-          | Some t' => Ok (Some (strip_marks t'))
-          | None => Err err_nni
-          end
-      else if child_of p1 p2 then
-        (* n2 above n1; m2 is then a child of n1 *)
-        let ia := if child_of pm1 p2 then last pm1 0 else up_idx (uslots n2) in
-        match NNI.at_path (NNI.swap_local (last p1 0) (up_idx (uslots n1)) ia (last pm2 0)) p2 tm with
-        | Some t' => Ok (Some (strip_marks t'))
-        | None => Err err_nni
-        end
-      else Err err_nni
-    | _, _ => Err err_nni
-    end
+  | Some p1, Some p2, Some pm1, Some pm2 => f p1 p2 pm1 pm2
   | _, _, _, _ => Err err_nni
+  end.
+
+(** nni.Apply of the collected handle: n1_2 (next to n1) and the child of n2 are exchanged *)
+Definition held_apply (tm : utree) : res utree :=
+  with_marks tm (fun p1 p2 pm1 pm2 => exchange tm p1 p2 pm1 pm2).
+
+(** nni.Undo of the applied handle: n1_2 is now next to n2, the moved child next to n1 *)
+Definition hold_undo (tm : utree) : res (option utree) :=
+  match with_marks tm (fun p1 p2 pm1 pm2 => exchange tm p2 p1 pm1 pm2) with
+  | Ok t' => Ok (Some (strip_marks t'))
+  | Err m => Err m
+  end.
+
+(** Apply right away (nni_hold) *)
+Definition hold_apply (k : nat) (t : utree) : res (option utree) :=
+  match hold_collect k t with
+  | Ok (Some tm) => match held_apply tm with Ok t1 => Ok (Some t1) | Err m => Err m end
+  | Ok None => Ok None
+  | Err m => Err m
   end.
